@@ -7,13 +7,13 @@ Open Scope N_scope.
 Record step := mkS { serr : N; stext : bytes; skv : list kv }.
 
 (* library observations: ParseIP (text -> 16 bytes), IP.String, ParseCIDR (text -> ip, ones, bits),
-   IPNet.String ((ip16, ones) -> text), runes >= 0x80 -> (IsPrint, ToLower) *)
+   IPNet.String ((ip16, ones) -> text), runes >= 0x80 -> IsPrint *)
 Record tables := mkT {
   t_ipp : list (bytes * bytes);
   t_ips : list (bytes * bytes);
   t_cp : list (bytes * (bytes * N * N));
   t_np : list (bytes * N * bytes);
-  t_runes : list (N * (bool * N)) }.
+  t_runes : list (N * bool) }.
 
 Inductive case :=
 | CLine (t : N) (v2 : bool) (serial : N) (wf : bool) (line : bytes) (s1 s2 s3 : step) (tb : tables)
@@ -34,12 +34,11 @@ Fixpoint lookup_net (l : list (bytes * N * bytes)) (a : bytes) (ones : N) : byte
   end.
 
 Definition oracles_of (tb : tables) : toracles :=
-  mkTO (fun r => match lookup_n (t_runes tb) r with Some (p, _) => p | None => false end)
+  mkTO (fun r => match lookup_n (t_runes tb) r with Some p => p | None => false end)
        (fun s => lookup_b (t_ipp tb) s)
        (fun a => match lookup_b (t_ips tb) a with Some x => x | None => [] end)
        (fun s => lookup_b (t_cp tb) s)
-       (fun a ones => lookup_net (t_np tb) a ones)
-       (fun r => match lookup_n (t_runes tb) r with Some (_, l) => l | None => r end).
+       (fun a ones => lookup_net (t_np tb) a ones).
 
 Definition kv_eqb (a b : kv) : bool := bytes_eqb (fst a) (fst b) && bytes_eqb (snd a) (snd b).
 Fixpoint list_eqb {A} (eq : A -> A -> bool) (a b : list A) : bool :=
@@ -72,7 +71,7 @@ Definition step_matches (o : toracles) (v2 : bool) (serial : N) (l : bytes) (s :
     else if e =? E_PANIC then serr s =? 4
     else serr s =? 1
   | Ok r =>
-    (serr s =? 0) && bytes_eqb (marshal o r) (stext s) && list_eqb kv_eqb (convert o v2 false r) (skv s)
+    (serr s =? 0) && bytes_eqb (marshal o r) (stext s) && list_eqb kv_eqb (convert v2 false r) (skv s)
   end.
 
 Definition flatten_dump (d : list (bytes * list bytes)) : list kv :=
@@ -87,13 +86,12 @@ Fixpoint all_some {A} (l : list (option A)) : option (list A) :=
   | Some x :: t => match all_some t with Some r => Some (x :: r) | None => None end
   end.
 
-(* the library premises of the theorems (Hip_rt, Hip_nil, Hip_nosep; ToLower never yields '.'),
-   re-checked on every value the harness observed *)
+(* the library premises of the theorems (Hip_rt, Hip_nil, Hip_nosep), re-checked on every value
+   the harness observed *)
 Definition lib_ok (tb : tables) : bool :=
   forallb (fun e => match lookup_b (t_ipp tb) (snd e) with Some a => bytes_eqb a (fst e) | None => false end &&
                     negb (contains 44 (snd e))) (t_ips tb) &&
-  match lookup_b (t_ipp tb) [] with None => true | Some _ => false end &&
-  forallb (fun e => negb (snd (snd e) =? 46)) (t_runes tb).
+  match lookup_b (t_ipp tb) [] with None => true | Some _ => false end.
 
 (* correspondence: the model computes what the implementation did *)
 Definition model_ok (c : case) : bool :=
@@ -189,7 +187,7 @@ Definition model_out (c : case) :=
   | CLine t v2 serial wf line s1 s2 s3 tb =>
     let o := oracles_of tb in
     (match parse_line o serial line with
-     | Ok r => (0, marshal o r, convert o v2 false r, wf_recordb o r, finding_class o serial r)
+     | Ok r => (0, marshal o r, convert v2 false r, wf_recordb o r, finding_class o serial r)
      | Err e => (e, [], [], false, false)
      end, [] : list bytes)
   | CFile v2 serial pserial wf file pre_err pre orig_err orig p_err pdump acc tb =>
